@@ -144,3 +144,32 @@ def gen_align_stress(rng, tier):
                         case.append("deref %s u64 0x%x" % (k, (pe.image_base + r) & ((1 << pe.bits) - 1)))
                 cases.append(case)
     return cases
+
+
+def gen_shared_dag(rng, tier):
+    """C03: resource directories whose entries all point at ONE shared child, 16-30 levels deep (no
+    cycle, below the depth limit): unfolding it is exponential, so fsck / the tree printer / the
+    serializer must give up after a number of directory visits bounded by the bytes actually
+    present - also when the data directory declares an absurd Size."""
+    from . import gen_res
+    cases = []
+    n = 6 if tier == "quick" else 60
+    for _ in range(n):
+        levels = rng.choice([16, 20, 24, 28, 30])
+        fan = rng.choice([2, 2, 3])
+        sec = bytearray()
+        dsize = 16 + 8 * fan
+        for i in range(levels):
+            last = i == levels - 1
+            k = 0 if last else fan
+            sec += struct.pack("<IIHHHH", 0, 0, 0, 0, 0, k)
+            for e in range(k):
+                sec += struct.pack("<II", e + 1, 0x80000000 | (dsize * (i + 1)))
+            if last:
+                sec += bytes(dsize - 16)
+        for size in (None, 0xFFFFFFFF, 0x7FFFFFFF, len(sec) * 16):
+            pe = gen_res.pe_with_rsrc(rng, bytes(sec), rng.choice([32, 64]), None, size)
+            data = pe.build()
+            k = "f%d" % pe.bits
+            cases.append([gen_img.img_line(rng, data, 0, "e"), "res %s fsck" % k, "res %s fmt" % k, "json %s" % k, "walk %s" % k])
+    return cases
